@@ -7,8 +7,9 @@ CONSTANTS Keys = {1, 2, 3}
           Rej = FALSE
           EK = 0
           TName = "IntIntMap"
+          NHeld = 0
 VIEW View
 ACTION_CONSTRAINT DumpT
 INVARIANTS SetOK RefuseOK KeysBagExact ValuesBagExact EntriesBagExact WireRoundTrip NilIsAValue
-PROPERTIES Frame PutStores RefusalInert AddSums AddIfExistNeverCreates RemoveExact ClearEmpties PutAllIsPuts ReadOnlyKeeps SizeLaw
+PROPERTIES Frame PutStores RefusalInert AddSums AddIfExistNeverCreates RemoveExact ClearEmpties PutAllIsPuts ReadOnlyKeeps OthersKept PutAllFromIsPuts SizeLaw
 CHECK_DEADLOCK FALSE
